@@ -56,7 +56,10 @@ fn cmd_g1(args: &[String]) -> i32 {
     let known: Vec<String> = arg(args, "--known").map(|s| load_known(s, &prop)).unwrap_or_default();
 
     let acc = std::cell::RefCell::new(Acc::new(&prop));
-    let opts = RunOpts { strict: false, logging: false, known: known.clone(), quiesce_mid: false, timeout_s: 20 };
+    if let Some(r) = &replay_out {
+        rccv::crash::install(r);
+    }
+    let opts = RunOpts { strict: false, logging: false, known: known.clone(), quiesce_mid: false, timeout_s: 20, persist: replay_out.is_some(), prop: prop.clone(), config: cfg_name.clone() };
     let mut seed_bytes = [0u8; 32];
     for (i, b) in seed_bytes.iter_mut().enumerate() {
         *b = (hash_seed(&[&prop, &cfg_name, profile.name], &[seed, i as u64]) & 0xff) as u8;
@@ -139,7 +142,7 @@ fn cmd_replay(args: &[String]) -> i32 {
     let prop = arg(args, "--prop").map(|s| s.to_string()).or_else(|| v["property"].as_str().map(|s| s.to_string())).unwrap_or("C01".into());
     let case: Case = serde_json::from_value(v["case"].clone()).expect("case");
     let known: Vec<String> = arg(args, "--known").map(|s| load_known(s, &prop)).unwrap_or_default();
-    let opts = RunOpts { strict: true, logging: true, known, quiesce_mid: false, timeout_s: 20 };
+    let opts = RunOpts { strict: true, logging: !args.iter().any(|a| a == "--quiet"), known, quiesce_mid: false, timeout_s: 20, persist: false, prop: prop.clone(), config: String::new() };
     let quiet = args.iter().any(|a| a == "--quiet");
     match run_case(&case, &opts) {
         Outcome::Hang => {
@@ -147,11 +150,7 @@ fn cmd_replay(args: &[String]) -> i32 {
             2
         }
         Outcome::Done(res) => {
-            if !quiet {
-                for l in &res.log {
-                    println!("{}", l);
-                }
-            }
+            let _ = quiet;
             let mine: Vec<_> = res.violations.iter().filter(|v| v.props.iter().any(|p| p == &prop)).collect();
             for v in &res.violations {
                 println!("violation props={:?} sig={} :: {}", v.props, v.sig, v.detail);
